@@ -131,7 +131,7 @@ func runOBJ(src *choice.Source, st *Stats) (fs []Finding) {
 		}
 	}
 
-	if len(tris) > 0 {
+	{
 		ts := 1 + src.Intn(3)
 		qo, _, img := model3d.BuildQuantizedMaterialOBJ(tris, ts, cf)
 		if f := checkOBJ("obj_quantized", qo, tris, true); f != nil {
@@ -142,7 +142,7 @@ func runOBJ(src *choice.Source, st *Stats) (fs []Finding) {
 		}
 	}
 
-	if len(tris) > 0 {
+	{
 		// the remaining zip exporters: archives must open and reference every face once
 		wq := simio.NewWriter(simio.WriteFaults{})
 		if err := model3d.WriteQuantizedMaterialOBJ(wq, tris, 2, cf); err != nil {
@@ -299,7 +299,13 @@ func run3MF(src *choice.Source, st *Stats) (fs []Finding) {
 	st.Files++
 	st.Bytes += int64(len(w.Buf))
 	st.Sample = map[string]any{"kind": "3mf", "faces": len(tris), "bytes": len(w.Buf)}
-	zr, err := zip.NewReader(bytes.NewReader(w.Buf), int64(len(w.Buf)))
+	return check3MF(w.Buf, tris)
+}
+
+// check3MF: the archive opens, has the three parts, and its model lists every
+// input face (pointer) exactly once with in-range vertex indices.
+func check3MF(data []byte, tris []*model3d.Triangle) (fs []Finding) {
+	zr, err := zip.NewReader(bytes.NewReader(data), int64(len(data)))
 	if err != nil {
 		return []Finding{{"3mf|open", err.Error()}}
 	}
